@@ -28,7 +28,7 @@ PROPS: dict[str, dict] = {
     "C03": {"modules": ["vf.h_ctrl", "vf.h_stack"], "harnesses": ["ctrl-C03", "plan-step", "act-step", "notify-step", "migrate-step", "fullstack-C03"]},
     "C04": {"modules": ["vf.h_ctrl"], "harnesses": ["ctrl-C04", "plan-step", "build-assignment-step", "fetch-step"]},
     "C17": {"modules": ["vf.h_wire", "vf.h_comms", "vf.h_wire2"], "harnesses": ["shm-wire-smt", "frame-sequences", "payload-roundtrip", "wire-pickle-json", "wire-cross-process"]},
-    "C08": {"modules": ["vf.h_shm"], "harnesses": ["shm-step", "shm-step-preempt", "shm-server-dispatch", "shm-init"]},
+    "C08": {"modules": ["vf.h_shm"], "harnesses": ["shm-step", "shm-step-preempt", "shm-server-dispatch", "shm-init", "shm-evict-liveness"]},
     "C09": {"modules": ["vf.h_shm", "vf.h_shmclient"], "harnesses": ["shm-step-bytes", "shm-evict-liveness", "shm-client-roundtrip"], "cpu_quick": 16 * 600.0},
 }
 
